@@ -44,6 +44,22 @@ def generate(tier, seed):
                 cases.append(case("eng", sp, ad, "-", steps))
                 dist["adapters"][ak] = dist["adapters"].get(ak, 0) + 1
                 dist["configs"] += 1
+    # policy TEXTS with comment lines, blank lines, CRLF, blanks around columns and quoting, through the String and File
+    # adapters' own line loops: full and filtered loads see exactly the rules of the text
+    dist["raw_text"] = 0
+    for st in stores[:2]:
+        p, p2, g, g2 = st
+        lines = []
+        for i in range(max(len(p), len(p2), len(g), len(g2))):
+            for key, l in (("p", p), ("g", g), ("p2", p2), ("g2", g2)):
+                if i < len(l):
+                    lines.append([key] + l[i])
+        for fp, fg in rnd.sample(combos, 40 if tier == "quick" else 400):
+            text = policy_text(rnd, lines)
+            ad = adapter_T(text) if rnd.random() < 0.5 else adapter_Ft(text)
+            steps = ["?ga:p", "?ga:g", "?if", "LF:%s:%s" % (enc_rule(fp), enc_rule(fg)), "?ga:p", "?ga:g", "?if", "LD", "?ga:p", "?ga:g", "?if"]
+            cases.append(case("eng", sp, ad, "-", steps))
+            dist["raw_text"] += 1
     # a reload that FAILS (policy file unavailable) must not unmark a filtered enforcer nor change its policy,
     # and save_policy must still be refused afterwards
     dist["failed_reload"] = 0
@@ -66,7 +82,8 @@ def generate(tier, seed):
         "exhaustive": tier != "quick",
         "rule": ("a model with p (3 columns), p2 (2), g (2), g2 (3); 4 stored policies x every filter with empty / matching / non-matching values on the "
                  "leading 0-3 columns for p and for g x File, Memory and String adapters: full load, load_filtered_policy, stores, is_filtered, attempted "
-                 "save_policy (must refuse when filtered), reload of the adapter. non-trivial = the filter left some but not all rules out"),
+                 "save_policy (must refuse when filtered), reload of the adapter; the same stores as raw policy TEXTS with comment / blank lines, "
+                 "CRLF, spacing and quoting through the String and File adapters. non-trivial = the filter left some but not all rules out"),
         "distribution": dist,
     }
 
